@@ -495,6 +495,7 @@ pub fn run(ctx: &Ctx) {
     run_c(ctx);
     run_d(ctx);
     run_e(ctx);
+    crate::checks::c11f::run(ctx);
     ctx.assume("part B: standard signals coalesce while pending; a delivery is a raise_signal on the shell's virtual process from outside (as the kernel would), between scheduler steps and at preemption points");
     ctx.assume("merge model: disposition = max(internal need, user action) with default < ignore < catch; subshell entry and the ignored-on-entry lock as in POSIX 2.12 and the doc comments of trap.rs");
 }
